@@ -412,6 +412,26 @@ func genHistory(r *rand.Rand, cfg Cfg, nQueries int) (qs []Query, classes []stri
 	return qs, classes
 }
 
+// withRepeats returns the history with up to four of its address-validity queries asked a second time, right after
+// the first time or at the end.
+func withRepeats(r *rand.Rand, hist []Query) []Query {
+	out := make([]Query, 0, len(hist)+4)
+	var tail []Query
+	n := 0
+	for _, q := range hist {
+		out = append(out, q)
+		if isAddrFn(q.Fn) && n < 4 && r.Intn(2) == 0 {
+			n++
+			if r.Intn(2) == 0 {
+				out = append(out, q)
+			} else {
+				tail = append(tail, q)
+			}
+		}
+	}
+	return append(out, tail...)
+}
+
 // ---- fresh-process oracle ------------------------------------------------------------------------------------------
 
 // freshAnswers evaluates every distinct query in `reps` independent rounds of fresh processes. In each round the queries
@@ -717,9 +737,28 @@ func TestGenHistories(t *testing.T) {
 		for _, hist := range hists {
 			perm := append([]Query(nil), hist...)
 			r.Shuffle(len(perm), func(i, j int) { perm[i], perm[j] = perm[j], perm[i] })
-			for vi, run := range [][]Query{hist, perm} {
+			for vi, run := range [][]Query{withRepeats(r, hist), withRepeats(r, perm)} {
 				lib.Eval()
 				answers := ask(g.cfg, run)
+				// repeat consistency: the same validity question asked again in the same process (10240-entry verdict cache, so
+				// no eviction in between) must get the same answer, exact error included - also where the listed map-order
+				// finding makes processes disagree with each other
+				firstAns := map[string]int{}
+				for i, q := range run {
+					if !isAddrFn(q.Fn) {
+						continue
+					}
+					if j, ok := firstAns[q.key()]; ok {
+						lib.Class("repeat/same_address_query_asked_again")
+						if answers[i] != answers[j] {
+							lib.Violation(t, prop, "TestGenHistories", map[string]interface{}{"cfg": g.cfg, "history": run[:i+1], "first_index": j, "repeat_index": i},
+								"%s(%s, h=%d) answered %q at query %d and %q when asked again at query %d of the same process: the answer depends on whether the question was asked before",
+								q.Fn, short(q.In), q.H, answers[j], j, answers[i], i)
+						}
+					} else {
+						firstAns[q.key()] = i
+					}
+				}
 				if idx, msg := g.checkHistory(run, answers); idx >= 0 {
 					min := g.minimise(run, idx)
 					lib.Violation(t, prop, "TestGenHistories", map[string]interface{}{"cfg": g.cfg, "history": min, "fresh": g.fresh[run[idx].key()]},
